@@ -2,7 +2,7 @@
    check: one operation in, new state and a list of output values out.  The
    OCaml driver (harness/mdrv.ml) only parses script lines and prints values. *)
 From Coq Require Import NArith ZArith List Bool.
-From Srtp Require Import Util Constants KeyLimit Rdb Rdbx Icm World Stream Rtp Rtcp Aead Session.
+From Srtp Require Import Util Constants KeyLimit Rdb Rdbx Icm World Stream Rtp Rtcp Aead Session StdPolicy.
 From Srtp.Crypto Require Import AES SHA1 HMAC.
 From Srtp.Spec Require Rfc3711.
 From Srtp Require BitvecModel EqualModel Sha1Model HmacModel WipeModel.
@@ -336,6 +336,14 @@ Definition run_api (m : mstate) (code : Z) (a : list Z) (b : list bytes) : mstat
                 Rfc3711.rp_mki := nth 2 b []; Rfc3711.rp_xtn_ids := nth 3 b [] |} in
     (m, [OZ 0; OZ 0; OB (if code =? 70 then Rfc3711.srtp_protect q (Z.to_N (arg a 3)) (nth 4 b [])
                          else Rfc3711.srtcp_protect q (Z.to_N (arg a 3)) (nth 4 b []))])
+  else if (code =? 79) || (code =? 80) then
+    (* stdpol n / profpol profile is_rtcp : the six fields the setter leaves in a zeroed srtp_crypto_policy_t *)
+    let r := if code =? 79 then std_policy (arg a 0) else profile_policy (arg a 0) (zb (arg a 1)) in
+    match r with
+    | Some c => (m, [OZ st_ok; OZ (cp_cipher c); OZ (cp_keylen c); OZ (cp_auth c); OZ (cp_authkeylen c); OZ (cp_taglen c); OZ (cp_serv c)])
+    | None => (m, [OZ st_bad_param])
+    end
+  else if code =? 81 then (m, [OZ (profile_key_len (arg a 0)); OZ (profile_salt_len (arg a 0))])
   else if code =? 72 then
     (* spec_kdf label n | mkey msalt *)
     (m, [OZ 0; OZ 0; OB (Rfc3711.kdf (nth 0 b []) (nth 1 b []) (Z.to_N (arg a 0)) (zn (arg a 1)))])
